@@ -339,6 +339,63 @@ fn siblings(prop: &mut Property, ctx: &Ctx) {
     }
 }
 
+/// key seals whose Diffie-Hellman shared secret has a leading / trailing zero byte (about 1 in 256 of all seals): the
+/// ephemeral secret is searched with the harness's own curve arithmetic, the blob built by the reference model
+fn seal_shared_secret_classes<V: Full>(prop: &mut Property) {
+    if V::VER == 1 {
+        return;
+    }
+    let name = V::NAME;
+    prop.subs.push(
+        Sub::new(format!("{name}/seal-shared-secret-classes"), 4, "2 recipient keys x 2 classes (P-384: two different ephemeral scalars whose shared x-coordinate starts with 00; X25519: shared secret with a zero last byte / a zero first byte): the reference model's k3/k2/k4.seal opens in the library to the sealed key, and (owned RNG) the library's own seal under the same ephemeral secret is the model's blob", move |idx, describe| {
+            let ks = keys::keyset::<V>(false, 0);
+            let pair = &ks.pke[(idx as usize / 2) % ks.pke.len()];
+            let class = idx % 2;
+            let mut o = Outcome::new();
+            if describe {
+                o.sample = Some(json!({"backend": name, "recipient": pair.0.label, "class": class}));
+            }
+            let key: [u8; 32] = ks.locals[2].bytes[..].try_into().unwrap();
+            let base = format!("{name}/seal-shared-secret-classes");
+            let (esk, blob): (Vec<u8>, Option<Vec<u8>>) = if V::VER == 3 {
+                let Some(esk) = spec::p384_esk_with_short_shared_secret(&pair.1.bytes, if class == 0 { 1 } else { 5000 }) else {
+                    o.class("search-exhausted");
+                    return o;
+                };
+                let b = spec::seal_p384(&pair.1.bytes, &esk, &key);
+                (esk, b)
+            } else {
+                let pkb: [u8; 32] = pair.1.bytes[..].try_into().unwrap();
+                let Some(esk) = spec::x25519_esk_with_short_shared_secret(&pkb, class == 0) else {
+                    o.class("search-exhausted");
+                    return o;
+                };
+                let b = spec::seal_x25519(V::VER, &pkb, &esk, &key);
+                (esk.to_vec(), b)
+            };
+            let Some(blob) = blob else {
+                o.violate_env(format!("{base}/model"), "the reference model cannot build the blob".to_string(), json!({}));
+                return o;
+            };
+            let s = pk::join(&format!("k{}.seal.", V::VER), &blob);
+            match subject(|| pk::unseal::<V>(&s, &pair.0.bytes)) {
+                Ok(Ok(k)) if k == key => o.class("short-shared-secret-opens"),
+                other => o.violate(format!("{base}/spec-blob-rejected"), format!("a conforming sealed key whose shared secret has a zero {} byte is not unsealed: {:?}", if V::VER == 3 || class == 0 { "leading" } else { "first" }, other.map(|r| r.map(|k| k.len()).map_err(|e| crate::payload::err_kind(&e)))), json!({"blob": s, "ephemeral_secret": hexs(&esk)})),
+            }
+            if V::RNG != RngKind::AwsLc {
+                let (r, _) = rng::with(Mode::Bytes(esk.clone()), &[], || subject(|| pk::seal::<V>(&key, &pair.1.bytes)));
+                match r {
+                    Ok(Ok(lib)) if lib == s => o.class("library-seal-equals-model"),
+                    Ok(Ok(lib)) => o.violate(format!("{base}/seal-differs"), "the library's seal under this ephemeral secret differs from the reference model's blob".to_string(), json!({"library": lib, "model": s})),
+                    other => o.violate(format!("{base}/seal-failed"), format!("{:?}", other.map(|r| r.is_ok())), json!({})),
+                }
+            }
+            o
+        })
+        .witness(&["short-shared-secret-opens"]),
+    );
+}
+
 pub fn build(ctx: &Ctx) -> Property {
     let mut p = Property::new("C07", "exploration");
     p.subs.push(specvec::sub(if ctx.thorough() { specvec::Cats { heavy: true, ..specvec::Cats::PASERK } } else { specvec::Cats::PASERK }));
@@ -381,6 +438,11 @@ pub fn build(ctx: &Ctx) -> Property {
     seq!(backends::V3L);
     seq!(backends::V4);
     seq!(backends::V4S);
+    seal_shared_secret_classes::<backends::V2>(&mut p);
+    seal_shared_secret_classes::<backends::V3>(&mut p);
+    seal_shared_secret_classes::<backends::V3L>(&mut p);
+    seal_shared_secret_classes::<backends::V4>(&mut p);
+    seal_shared_secret_classes::<backends::V4S>(&mut p);
     siblings(&mut p, ctx);
     p.assume("reference models from the PASERK specification (validated on the official vectors; PBKW vectors above the 64 MiB budget only in the thorough tier); draws are owned through getrandom 0.3 / libsodium randombytes; for aws-lc the model re-derives from the values embedded in the library's output");
     p.assume("password-wrap inputs that are not specification-conforming (Argon2 parallelism != 1, PBKDF2 with 0 iterations) are outside the statement and not compared between siblings");
